@@ -537,6 +537,55 @@ class Model:
         mi = self.module_of(fd)
         return mi.name + "." + ".".join(reversed(parts))
 
+    # -- a function together with the private helpers it was split into ----------
+    def private_callees(self, fd, depth=2):
+        """FunctionDefs of the private helpers (``_name``: module-level functions of
+        the same module, methods of the same class called through self/cls/super,
+        nested defs) that ``fd`` calls, transitively up to ``depth``.  'Extract a
+        block into a private helper' is the most common refactoring; a rule that
+        looks for a construct in an anchored function looks in these as well."""
+        out, seen = [], {id(fd)}
+        mi = self.module_of(fd)
+        cls = self.enclosing_class(fd)
+        ci = None
+        if cls is not None:
+            ci = next((c for c in self.classes.values() if c.node is cls), None)
+        frontier = [(fd, 0)]
+        while frontier:
+            f, d = frontier.pop()
+            if d >= depth:
+                continue
+            for n in ast.walk(f):
+                if not isinstance(n, ast.Call):
+                    continue
+                tgt = None
+                if isinstance(n.func, ast.Name) and n.func.id.startswith("_"):
+                    tgt = mi.functions.get(n.func.id)
+                    if tgt is None:
+                        for x in ast.walk(f):
+                            if isinstance(x, ast.FunctionDef) and x.name == n.func.id:
+                                tgt = x
+                elif isinstance(n.func, ast.Attribute) and n.func.attr.startswith("_") \
+                        and not n.func.attr.startswith("__") \
+                        and isinstance(n.func.value, ast.Name) \
+                        and n.func.value.id in ("self", "cls") and ci is not None:
+                    r = self.resolve_method(ci.qn, n.func.attr)
+                    if r is not None:
+                        tgt = r[1]
+                if tgt is not None and id(tgt) not in seen:
+                    seen.add(id(tgt))
+                    out.append(tgt)
+                    frontier.append((tgt, d + 1))
+        return out
+
+    def scope(self, fd, depth=2):
+        """``fd`` and its private callees"""
+        return [fd] + self.private_callees(fd, depth)
+
+    def walk_scope(self, fd, depth=2):
+        for f in self.scope(fd, depth):
+            yield from ast.walk(f)
+
     def all_functions(self, modules=None):
         """Yield (ModuleInfo, FunctionDef) for every def (nested included)."""
         for name, mi in self.modules.items():
